@@ -25,7 +25,11 @@ def main(tier, seed):
                 continue
         jobs.append(dict(skel=s, backend='fd', consistency='StrictlyAtOnce', **extra))
     jobs += [dict(skel=s, backend='mmap', consistency='StrictlyAtOnce') for s in skels[:5]]
-    bounds = dict(histories='skeletons %s: r = oversized append (payload in (2^30-256, 2^30+2^20]), L = topic name of 240 bytes, A<n>r = batch whose last entry is oversized, A<n>L = batch on the long topic, A2001 = 2001 entries, A11G = 11 entries with > 10 GiB in total' % skels,
+    # topic names around the largest one whose header still fits (216 fits, 217..224 serialise to 256 bytes, do not)
+    for tl in ([216, 217, 224] if tier == 'quick' else [215, 216, 217, 220, 224, 225, 232]):
+        for b in ('fd', 'mmap'):
+            jobs.insert(0, dict(skel='a,A2:T,a:T,n,n:T,n:T,n:T,n:T', topic_len=tl, backend=b, consistency='StrictlyAtOnce', sizecap=4096))
+    bounds = dict(histories='skeletons %s: r = oversized append (payload in (2^30-256, 2^30+2^20]), L = long topic name (240 bytes; also 216/217/224 around the header-fit boundary), A<n>r = batch whose last entry is oversized, A<n>L = batch on the long topic, A2001 = 2001 entries, A11G = 11 entries with > 10 GiB in total' % skels,
                   payload_size='accepted entries 0 .. 2^30-256', faults='F<n> = batch of n entries with one injected io_uring write-completion failure at a solver-chosen position (the data reached the file, the completion reports an error); file-creation and flush faults are not explored yet',
                   wall_budget_s=240 if tier == 'quick' else 2400)
     return enginecheck.run('C04', tier, seed, jobs, enginecheck.KINDS['C04'], bounds['wall_budget_s'], DIFF, bounds,
